@@ -562,7 +562,10 @@ def unpack_collections(*args, traverse=True):
             # Treat iterators like lists
             typ = list if isinstance(expr, Iterator) else type(expr)
             if typ in (list, tuple, set):
-                tsk = Task(tok, typ, List(*[_unpack(i) for i in expr]))
+                # Pass the elements as one list: List(*elements) would take a
+                # single element that is an instance of a list subclass (a
+                # leaf, returned as it is) for the list of elements itself
+                tsk = Task(tok, typ, List([_unpack(i) for i in expr]))
             elif typ in (dict, OrderedDict):
                 tsk = Task(
                     tok, typ, Dict({_unpack(k): _unpack(v) for k, v in expr.items()})
@@ -582,7 +585,7 @@ def unpack_collections(*args, traverse=True):
         return TaskRef(tok)
 
     out = uuid.uuid4().hex
-    repack_dsk[out] = Task(out, tuple, List(*[_unpack(i) for i in args]))
+    repack_dsk[out] = Task(out, tuple, List([_unpack(i) for i in args]))
 
     def repack(results):
         dsk = repack_dsk.copy()
